@@ -45,11 +45,14 @@ class Table:
     Data Class for Table
     """
 
-    def __init__(self, name: str, schema: Schema = Schema(), **kwargs):
+    def __init__(self, name: str, schema: Optional[Schema] = None, **kwargs):
         """
         :param name: table name
         :param schema: schema as defined by :class:`Schema`
         """
+        if schema is None:
+            # built per call, so that a default schema configured after import is honoured
+            schema = Schema()
         if "." not in name:
             self.schema = schema
             self.raw_name = escape_identifier_name(name)
